@@ -183,15 +183,20 @@ fn process_request_obj(request: &Request, dbs: &Arc<Databases>, client: &mut Cli
                 }
                 return Response::Ok {};
             } else {
-                // Validate all dbs are existent
-                let map_dbs = dbs.map.read().unwrap();
-                let missing_dbs = db_names
-                    .clone()
-                    .into_iter()
-                    .map(|db_name| (map_dbs.contains_key(&db_name.to_string()), db_name))
-                    .filter(|db_exists| !db_exists.0);
+                // Validate all dbs are existent. The databases lock is released before the
+                // snapshots are queued: queuing takes it again, and a create-db waiting for the
+                // lock in between would block both for good
+                let missing_dbs: Vec<(bool, String)> = {
+                    let map_dbs = dbs.map.read().unwrap();
+                    db_names
+                        .clone()
+                        .into_iter()
+                        .map(|db_name| (map_dbs.contains_key(&db_name.to_string()), db_name))
+                        .filter(|db_exists| !db_exists.0)
+                        .collect()
+                };
 
-                match missing_dbs.clone().count() {
+                match missing_dbs.len() {
                     0 => {
                         db_names.clone().into_iter().for_each(|db_name| {
                             snapshot_db_by_name(&db_name, &dbs, reclaim_space);
@@ -200,12 +205,12 @@ fn process_request_obj(request: &Request, dbs: &Arc<Databases>, client: &mut Cli
                     }
                     1 => {
                         return Response::Error {
-                            msg: missing_dbs.last().unwrap().1 + " is not a valid database name",
+                            msg: missing_dbs.last().unwrap().1.clone() + " is not a valid database name",
                         }
                     }
                     _ => {
                         let dbs_name_for_message = missing_dbs
-                            .clone()
+                            .iter()
                             .fold(String::new(), |acc, dbs| acc + dbs.1.as_str() + ", ");
                         return Response::Error {
                             msg: dbs_name_for_message + "are not a valid database names",
